@@ -158,8 +158,44 @@ def _mtime_rule(repo, rep):
               detail="; ".join(src(r_) for r_ in bad))
 
 
+def _file_identity(repo, rep):
+    """the file a template stands for is fixed when it is constructed (a
+    plain name is made absolute then, unless it is relative to a package),
+    and its modification time is that of THIS file: what is stat'ed / looked
+    up in the archive is the path joined with the file name"""
+    bi = repo.func("chameleon.template.BaseTemplateFile.__init__")
+    absd = [n for n in ast.walk(bi.node) if isinstance(n, ast.Call)
+            and src(n.func) == "os.path.abspath"]
+    okb = bool(absd)
+    for c in absd:
+        gs = [src(L._CanonIf._pos(t_)[0]) if isinstance(t_, ast.expr) else ""
+              for t_, v_ in L.guards_of(c, bi.node)]
+        if not any(g.replace(" ", "") in ("package_nameisNone",
+                                           "package_nameisnotNone")
+                   for g in gs):
+            okb = False
+    rep.check(okb, "R16.1", bi.qualname, "a file name is made absolute "
+              "exactly when no package is given",
+              construct="filename-absolute-unless-package",
+              where=L.where(bi))
+    mt = repo.func("chameleon.template.BaseTemplateFile.mtime")
+    joined = {src(a.targets[0]) for a in ast.walk(mt.node)
+              if isinstance(a, ast.Assign) and isinstance(a.value, ast.Call)
+              and isinstance(a.value.func, ast.Attribute)
+              and a.value.func.attr == "joinpath"}
+    uses = [x for x in ast.walk(mt.node) if isinstance(x, ast.Attribute)
+            and x.attr in ("stat", "at")]
+    rep.check(bool(joined) and bool(uses) and all(
+        src(x.value) in joined for x in uses), "R16.1", mt.qualname,
+        "the modification time of a package-relative template is that of "
+        "the file itself (the joined path), not of the package directory",
+        construct="mtime-of-joined-path", where=L.where(mt),
+        detail="; ".join(src(x) for x in uses))
+
+
 def _cook_check(repo, rep):
     _mtime_rule(repo, rep)
+    _file_identity(repo, rep)
     # must-pass-through
     for q in (BT + "render", ZT + "PageTemplate.include",
               ZT + "Macros.__getitem__", ZT + "Macros.names"):
